@@ -334,6 +334,8 @@ def reflects_last_step(W, F):
 def content_is_latest(h, sym, ramp, F):
     """'reflects the most recent step', by value: the same history on new objects whose next states are dropped
     just before every step (so nothing of an earlier step can survive) must compile to the same function"""
+    if F.has_free():
+        return []                     # (reported separately; such a function cannot be evaluated)
     W2 = World(sym, ramp, forget=True)
     r = None
     for op in h:
@@ -341,6 +343,8 @@ def content_is_latest(h, sym, ramp, F):
     if not (isinstance(r, str) and r.startswith("function")):
         return [f"content: the same history on objects that forget their next states before each step gives {r}"]
     F2 = W2.last_F
+    if F2.has_free():
+        return []
     sig = [(F.name_in(i), F.size1_in(i)) for i in range(F.n_in())]
     sig2 = [(F2.name_in(i), F2.size1_in(i)) for i in range(F2.n_in())]
     if sig != sig2 or F.name_out() != F2.name_out():
